@@ -30,6 +30,17 @@ NON_RAISING_CALLS = {
 }
 
 
+def _endless(it: ast.expr) -> bool:
+    """itertools.count(...) / itertools.repeat(x) / itertools.cycle(non-empty literal) never end: the loop is left by break, return or raise only."""
+    if isinstance(it, ast.Call):
+        name = dotted(it.func)
+        if name in ("count", "itertools.count") and len(it.args) <= 2:
+            return True
+        if name in ("repeat", "itertools.repeat") and len(it.args) == 1 and not it.keywords:
+            return True
+    return False
+
+
 @dataclass
 class Outcome:
     normal: set = field(default_factory=set)
@@ -233,7 +244,8 @@ class Interp:
                 if is_for:
                     if sem.may_raise_expr(st.iter):
                         out.exc |= set(sem.simple_exc(s, st))
-                    exits.add(s)  # iterator exhausted
+                    if not _endless(st.iter):
+                        exits.add(s)  # iterator exhausted
                     body_in |= set(sem.bind_loop(s, st))
                 else:
                     if sem.may_raise_expr(st.test):
